@@ -747,6 +747,13 @@ class ImportanceNestedSampler(BaseNestedSampler):
             raise ValueError("`min_samples` must be less than `nlive`")
         if self.min_remove > self.nlive:
             raise ValueError("`min_remove` must be less than `nlive`")
+        if self.threshold_method not in ["entropy", "quantile"]:
+            raise ValueError(
+                f"Unknown threshold method: {self.threshold_method}. "
+                "Choose from: entropy or quantile."
+            )
+        if self.max_samples is not None and self.max_samples < self.nlive:
+            raise ValueError("`max_samples` must be greater than `nlive`")
         logger.debug("Sampler configuration is valid")
         return True
 
